@@ -201,6 +201,10 @@ impl AstLowering {
         // Ord requires PartialOrd and Eq (and thus PartialEq)
         let ord = derives::as_str(DeriveId::Ord);
         let partial_ord = derives::as_str(DeriveId::PartialOrd);
+        // PartialOrd requires PartialEq
+        if has(&derives, partial_ord) && !has(&derives, partial_eq) {
+            derives.push(partial_eq.to_string());
+        }
         if has(&derives, ord) {
             if !has(&derives, partial_ord) {
                 derives.push(partial_ord.to_string());
